@@ -232,6 +232,13 @@ def op_adjoint_fails(case):
         return None
     full = _op_full(case)
     if full is None:
+        # a documented refusal (NotImplementedError, an assertion naming the unsupported case) is what the property allows;
+        # a dtype CASTING error inside a pullback is not a refusal but a pullback that does not complete
+        try:
+            op_sweep(case, lambda i, shp: _op_seed(case, i, shp))
+        except Exception as ex:
+            if 'Cannot cast ufunc' in str(ex):
+                return 'adjoint-op-casting-%s: the reverse sweep raised a dtype casting error (real operand next to a complex intermediate); the library provides this pullback' % case['op']
         return None
     ys, xbars = full
     D, P = case['D'], case['P']
